@@ -203,10 +203,10 @@ func scenario(c cfg) runner.Sc {
 
 func Property() runner.Property {
 	return runner.Property{
-		ID:    "C04",
-		Level: "model_checking",
+		ID:              "C04",
+		Level:           "model_checking",
 		ThoroughBudgetS: 1200,
-		Rule:  "real _watcher + _watchSession against a scripted API server; consumer = controller.run's loop restricted to the watch case (re-reads watcher.events() each iteration, no other wake-up because relists are disabled); server histories of <= 4 mutations over 2 keys at scheduler-chosen instants; watch faults {close after k frames, connect error (once, twice), status / bookmark / error / metadata-less frame, burst then close} enumerated at every position; retry timer (1s virtual) may fire between any two steps; oracle after all retries (virtual time 10s, relists never happen): the consumer-side cache equals the server, i.e. nothing the server reported was skipped or discarded",
+		Rule:            "real _watcher + _watchSession against a scripted API server; consumer = controller.run's loop restricted to the watch case (re-reads watcher.events() each iteration, no other wake-up because relists are disabled); server histories of <= 4 mutations over 2 keys at scheduler-chosen instants; watch faults {close after k frames, connect error (once, twice), status / bookmark / error / metadata-less frame, burst then close} enumerated at every position; retry timer (1s virtual) may fire between any two steps; oracle after all retries (virtual time 10s, relists never happen): the consumer-side cache equals the server, i.e. nothing the server reported was skipped or discarded",
 		Assumptions: []string{
 			"the consumer applies events with the version rules of the cache (C01)",
 			"bursts stay below the buffer size, so an overflow drop cannot excuse a loss",
